@@ -264,6 +264,39 @@ theorem C17_submit_vote_no_effect (env : Env Ext C Pm) (s s' : St Ext C Pm) (op 
   · obtain ⟨_, _, _, _, _, _, rfl⟩ := vote_ok_shape s s' now pid v vt h
     exact ⟨rfl, rfl, rfl⟩
 
+/-- A re-vote replaces the earlier vote: after an accepted vote the store holds exactly one vote of that
+    voter on that proposal — the option just cast — and every other vote is as before. The tally
+    therefore counts the votes cast last. -/
+theorem C17_revote_replaces (s s' : St Ext C Pm) (now : Int) (pid : Nat) (voter : Addr) (vt : VoteType)
+    (h : vote s now pid voter vt = .ok s') :
+    (⟨pid, voter, vt⟩ : Vote) ∈ s'.votes ∧
+    (∀ v, v ∈ s'.votes → v.pid = pid → v.voter = voter → v = ⟨pid, voter, vt⟩) ∧
+    (∀ v : Vote, ¬ (v.pid = pid ∧ v.voter = voter) → (v ∈ s'.votes ↔ v ∈ s.votes)) := by
+  obtain ⟨_, _, _, _, _, _, rfl⟩ := vote_ok_shape s s' now pid voter vt h
+  simp only [setVote, List.mem_append, List.mem_filter, List.mem_singleton, Bool.not_eq_true',
+    Bool.and_eq_false_iff, beq_eq_false_iff_ne, ne_eq]
+  refine ⟨Or.inr trivial, ?_, ?_⟩
+  · intro v hv hp hvo
+    rcases hv with ⟨_, hne⟩ | rfl
+    · rcases hne with h1 | h1
+      · exact absurd hp h1
+      · exact absurd hvo h1
+    · rfl
+  · intro v hne
+    constructor
+    · intro hv
+      rcases hv with ⟨hm, _⟩ | rfl
+      · exact hm
+      · exact absurd ⟨rfl, rfl⟩ hne
+    · intro hm
+      refine Or.inl ⟨hm, ?_⟩
+      by_cases hp : v.pid = pid
+      · exact Or.inr (fun hvo => hne ⟨hp, hvo⟩)
+      · exact Or.inl hp
+
+/-- non-vacuity: yes then no by the same voter leaves a single `no` vote -/
+example : setVote (setVote [] ⟨1, 0, .yes⟩) ⟨1, 0, .no⟩ = [⟨1, 0, .no⟩] := by decide
+
 /-- a refused submit / vote changes nothing at all (the message is rolled back) -/
 theorem C17_refused_no_effect (env : Env Ext C Pm) (s s' : St Ext C Pm) (op : Op Ext C Pm)
     (h : step env s op = .err) (hr : run env s [op] = some s') : s' = s := by
